@@ -221,6 +221,77 @@ class C03(Prop):
             if a.n >= 11 and rng.random() < 0.5: a.names = [a.names[i]] * a.n
         return a
 
+    GROW_NSEQ = [15, 16, 17, 18, 31, 32, 33, 34, 63, 64, 65]
+    GROW_ALEN = [1, 59, 60, 61, 120, 121, 199, 200, 201, 202, 399, 400, 401, 601]
+
+    def gen_growth(self, rng, fmt, abc, quick):
+        """alignments that cross the allocation-growth boundaries of the readers: sequence counts around the doubling of the growable MSA and of the
+        per-sequence parse data (16/17, 32/33, 64/65), widths around the writers' wrap (60 / 200 columns) and several blocks, tag / comment / #=GF
+        counts around their allocation steps, lines per Stockholm block around 16/32/64 - combined with EVERY annotation kind, each independently
+        present and SPARSE (on the first sequences only, the last only, a random subset): parsed and unparsed #=GS, #=GR, #=GC, weights."""
+        kind = {"text": rng.choice(["amino", "dna", "rna"]), "amino": "amino", "dna": "dna", "rna": "rna"}[abc]
+        n = rng.choice(self.GROW_NSEQ[:8] if quick and rng.random() < 0.8 else self.GROW_NSEQ)
+        sto = fmt in ("stockholm", "pfam")
+        L = rng.choice([201, 202, 400, 401] if (sto and rng.random() < 0.5) else self.GROW_ALEN)
+        if n > 34 and L > 401: L = 401
+        gaps = "-" if (abc != "text" or fmt in ("psiblast", "phylip", "phylips", "clustal", "clustallike")) else ("-._~" if sto else "-.")
+        a = G.rand_aln(rng, kind, n, L, gapchars=gaps, lower=(abc == "text" and fmt in ("stockholm", "pfam", "afa", "selex", "a2m", "psiblast")),
+                       maxname=10 if fmt in ("phylip", "phylips") else 12,
+                       namechars="abcdefghijklmnopqrstuvwxyzABCDEFGHIJKLMNOPQRSTUVWXYZ0123456789_|.:+[]()")
+        if fmt in ("clustal", "clustallike"): a.names = [nm if any(ch not in ".:*" for ch in nm) else "s" + nm for nm in a.names]
+        col = lambda chars: "".join(rng.choice(chars) for _ in range(L))
+        text = lambda k=12: "".join(rng.choice("abcdefghijklmnopqrstuvwxyz ABC0123456789.,;:()-_") for _ in range(rng.randrange(1, k))).strip() or "x"
+
+        def sparse(make):
+            """one value per sequence, present on a subset chosen by one of several shapes; never entirely absent"""
+            shape = rng.choice(["all", "first", "early", "late", "last", "half", "few", "most"])
+            on = {"all": lambda i: True, "first": lambda i: i == 0, "early": lambda i: i < rng.choice([1, 8, 16]), "late": lambda i: i >= rng.choice([16, 17, n - 1]),
+                  "last": lambda i: i == n - 1, "half": lambda i: rng.random() < 0.5, "few": lambda i: rng.random() < 0.1, "most": lambda i: rng.random() < 0.9}[shape]
+            v = [make() if on(i) else None for i in range(n)]
+            if not any(x is not None for x in v): v[rng.choice([0, n - 1, rng.randrange(n)])] = make()
+            return v
+        p = rng.choice([0.15, 0.4, 0.7])
+        if sto:
+            if rng.random() < p: a.wgt = [float("%.2f" % (rng.random() * 10 + 0.01)) for _ in range(n)]
+            if rng.random() < p: a.acc = sparse(lambda: "ACC%d" % rng.randrange(1000))
+            if rng.random() < p: a.desc = sparse(lambda: text(20))
+            ntag = lambda: rng.choice([0, 0, 1, 1, 2, 3, rng.choice([15, 16, 17])] if rng.random() < 0.9 else [33])
+            for k in range(ntag() if rng.random() < p else 0): a.gs.append(("GS%d" % k if k else "OS", sparse(lambda: text(10))))
+            if rng.random() < p: a.ss = sparse(lambda: col("HEC.<>"))
+            if rng.random() < p: a.sa = sparse(lambda: col("0123456789"))
+            if rng.random() < p: a.pp = sparse(lambda: col("0123456789*."))
+            for k in range(ntag() if rng.random() < max(p, 0.5) else 0): a.gr.append((("T%d" % k) if k else rng.choice(["csa", "AS", "LI", "IN"]), sparse(lambda: col("abc.*"))))
+            for k in range(ntag() if rng.random() < p else 0): a.gc.append(("C%d" % k if k else "CSX", col("abcxyz.*")))
+            if rng.random() < p: a.sscons = col("<>.-_,:")
+            if rng.random() < p: a.rf = col("xX.~")
+            if rng.random() < 0.2: a.ppcons = col("0123456789*.")
+            if rng.random() < 0.2: a.sacons = col("0123456789")
+            if rng.random() < 0.2: a.mm = col("m.")
+            for k in range(rng.choice([0, 0, 1, 15, 16, 17, 33]) if rng.random() < p else 0): a.gf.append((rng.choice(["CC", "DR", "RN"]), text(20)))
+            for k in range(rng.choice([0, 0, 1, 15, 16, 17, 33]) if rng.random() < p else 0): a.com.append(text(30))
+            if rng.random() < 0.3: a.name = G.rand_name(rng)
+            if rng.random() < 0.2: a.aacc = "PF%05d" % rng.randrange(100000)
+            # known finding C03:stockholm:first-mention-order: sequences are numbered in order of first mention (#=GS lines included), #=GR tags likewise.
+            # Stay out of exactly that region: without weights the first #=GS kind written (AC, DE, then the other tags) is made total; the #=GR tags are put
+            # in the order of the first sequence that carries them (what the reader's numbering gives anyway).
+            if not a.wgt:
+                if a.acc: a.acc = [x if x else "filler%d" % i for i, x in enumerate(a.acc)]
+                elif a.desc: a.desc = [x if x else "filler%d" % i for i, x in enumerate(a.desc)]
+                elif a.gs: t, v = a.gs[0]; a.gs[0] = (t, [x if x else "filler%d" % i for i, x in enumerate(v)])
+            firstseq = lambda v: next(i for i, x in enumerate(v) if x is not None)
+            a.gr.sort(key=lambda tv: firstseq(tv[1]))
+        elif fmt == "selex":
+            if rng.random() < p: a.ss = sparse(lambda: col("HEC.<>"))
+            if rng.random() < p: a.sa = sparse(lambda: col("0123456789"))
+            if rng.random() < p: a.sscons = col("<>.-_,:")
+            if rng.random() < p: a.rf = col("xX.~")
+            if rng.random() < 0.2: a.mm = col("m.")
+        elif fmt in ("afa", "a2m"):
+            if rng.random() < p: a.desc = sparse(lambda: text(20))
+            if fmt == "a2m" and rng.random() < p: a.rf = col("xxx.")
+        a.dup = False
+        return a
+
     def generated(self, ctx):
         from translate import msafile_tables
         return {"EaselModel/Msafile/AbcTables.lean": msafile_tables.generate(ctx.src, ctx.work)}
@@ -257,6 +328,16 @@ class C03(Prop):
             if a.alen > 200: stats["multi_block"] += 1
             if a.gf or a.gc or a.gs or a.gr or a.com: stats["annotated"] += 1
             out.append({"name": "rt%d-%s-%s" % (i, fmt, abc), "dup": a.dup, "ops": ["rt fmt=%s abc=%s " % (fmt, abc) + " ".join(aln_fields(a))]})
+        # allocation-growth boundaries of the readers x every annotation kind, sparse (gen_growth); Stockholm (several blocks) every second case
+        ng = 360 if quick else 6000
+        for i in range(ng):
+            fmt = "stockholm" if i % 2 == 0 else ALL_FORMATS[(i // 2) % len(ALL_FORMATS)]
+            abc = rng.choice(["text", "text", "amino", "dna", "rna"])
+            a = self.gen_growth(rng, fmt, abc, quick)
+            stats["growth"] = stats.get("growth", 0) + 1
+            stats["nseq_max"] = max(stats["nseq_max"], a.n); stats["alen_max"] = max(stats["alen_max"], a.alen)
+            if a.alen > 200: stats["multi_block"] += 1
+            out.append({"name": "grow%d-%s-%s" % (i, fmt, abc), "dup": False, "ops": ["rt fmt=%s abc=%s " % (fmt, abc) + " ".join(aln_fields(a))]})
         # every writer op called DIRECTLY (esl_msafile_<fmt>_Write instead of the esl_msafile_Write dispatch), all ten formats x text/digital,
         # and the PHYLIP writers' format options (ESL_MSAFILE_FMTDATA namewidth / rpl; 0 = unset) with the reader opened at the same name width
         nd = 400 if quick else 6000
